@@ -155,7 +155,11 @@ pub(super) fn animate<T: Component>(
         // from the `timeline` struct anymore after the `update`.
         let timeline_delay = timeline.delay();
         let timeline_duration = timeline.duration();
-        if animator.state == AnimationState::Playing {
+        // Also evaluate on a frame that ends the animation without ever having been `Playing` (a long
+        // frame can skip that phase entirely), so that the target always lands on the final values.
+        let ends_now =
+            animator.state != AnimationState::Ended && position_secs >= timeline_duration;
+        if animator.state == AnimationState::Playing || ends_now {
             if let Ok(mut target) = targets.get_mut(entity) {
                 timeline.update(&mut target, position_secs);
             }
